@@ -229,6 +229,21 @@ func (p *Path) feasible() bool {
 		}
 		pol[k] = c.Val
 	}
+	// one term equal to two different constants
+	eqc := map[string]string{}
+	for _, c := range p.conds {
+		if !c.Val || c.Pred.Op != "binop" || c.Pred.S != "==" {
+			continue
+		}
+		for i := 0; i < 2; i++ {
+			if k, o := c.Pred.Args[i], c.Pred.Args[1-i]; k.Op == "const" && o.Op != "const" {
+				if prev, ok := eqc[o.String()]; ok && prev != k.S {
+					return false
+				}
+				eqc[o.String()] = k.S
+			}
+		}
+	}
 	for _, c := range p.conds {
 		if c.Pred.Op == "const" && (c.Pred.S == "true" || c.Pred.S == "false") && (c.Pred.S == "true") != c.Val {
 			return false // a branch on a value that is constant on this path
@@ -381,11 +396,17 @@ func (P *Prog) evalCalls(p *Path, t *Term, assume factSet, depth int) *Term {
 		known.add(f)
 	}
 	return t.rewrite(func(u *Term) *Term {
+		ri := 0
+		outer := u
+		if u.Op == "res" && len(u.Args) == 1 && u.Args[0].Op == "call" {
+			ri = int(mustAtoi(u.S))
+			u = u.Args[0]
+		}
 		if u.Op != "call" {
 			return nil
 		}
 		fn := P.calleeOfTerm(u)
-		if fn == nil || fn.Signature.Results().Len() != 1 {
+		if fn == nil || ri >= fn.Signature.Results().Len() || (outer == u && fn.Signature.Results().Len() != 1) {
 			return nil
 		}
 		m := map[string]*Term{}
@@ -410,7 +431,7 @@ func (P *Prog) evalCalls(p *Path, t *Term, assume factSet, depth int) *Term {
 			if !consistent {
 				continue
 			}
-			res := cp.results()[0].subst(m)
+			res := cp.results()[ri].subst(m)
 			if res.contains(func(w *Term) bool { return w.Op == "call" && w.S == u.S }) {
 				return nil // recursive
 			}
@@ -597,6 +618,17 @@ func (P *Prog) expandOne(c Fact, depth int) [][]Fact {
 			}
 			if deleg || k == exitMixed {
 				set = append(set, normFact(&Term{Op: "binop", S: "==", Args: []*Term{rs[idx].subst(m), tNil()}}, true))
+			}
+		}
+		// the other results of the same call on this path, when constant
+		if res.Len() > 1 {
+			for j := range rs {
+				if j == idx {
+					continue
+				}
+				if v := rs[j].subst(m); v.Op == "const" {
+					set = append(set, normFact(&Term{Op: "binop", S: "==", Args: []*Term{{Op: "res", S: itoa(int64(j)), Args: []*Term{call}}, v}}, true))
+				}
 			}
 		}
 		for _, e := range P.expandConds(set, depth+1) {
